@@ -108,7 +108,7 @@ def run(ctx):
         fe9(bytes.fromhex(h), dbsn, mask, bytes.fromhex(c32) if c32 else None, exp, vec=True)
     for b, exp in VECTORS8:
         fe8(bitarray(b), exp, vec=True)
-    nfe = 250 if ctx.quick else 5000
+    nfe = 250 if ctx.quick else 25000
     jobs = []
     for _ in range(nfe):
         jobs += ["8", "9", "16", "32"]
